@@ -134,6 +134,14 @@ func registerStoreModels() {
 		m.E.D.Axiom("(forall ((k Bytes) (t Int)) (! (= (krange k g_RedelegationQueueKey (pfxend (kRedelQ t))) (and (= (ktag k) 7) (<= (kRedelQ_1 k) t))) :pattern ((krange k g_RedelegationQueueKey (pfxend (kRedelQ t))))))")
 		return App(SBytes, "pfxend", term(a[0]))
 	}
+	models[pkgStoreT+".InclusiveEndBytes"] = func(m *Machine, _ *Frame, _ *ssa.CallCommon, a []Val) Val {
+		aStore(m)
+		m.E.declKeys()
+		m.E.D.Fun("inclend", []Sort{SBytes}, SBytes)
+		m.E.Assume("A-KEYS", "store keys are read algebraically (see keymodel.go); InclusiveEndBytes(k) is the least key greater than k: a range ending there includes k itself")
+		m.E.D.Axiom("(forall ((k Bytes) (t Int)) (! (= (krange k g_RedelegationQueueKey (inclend (kRedelQ t))) (and (= (ktag k) 7) (<= (kRedelQ_1 k) t))) :pattern ((krange k g_RedelegationQueueKey (inclend (kRedelQ t))))))")
+		return App(SBytes, "inclend", term(a[0]))
+	}
 	models["bytes.HasSuffix"] = func(m *Machine, _ *Frame, _ *ssa.CallCommon, a []Val) Val {
 		aStore(m)
 		return App(SBool, "sfx", term(a[0]), term(a[1]))
